@@ -205,8 +205,8 @@ static void encode_op(int path) {
     int fits = n <= SIZE_MAX / 3 && 3 * n <= SIZE_MAX - len;
     if (fits && (n > REAL_MAX / 4 || len > REAL_MAX)) {
         /* a process cannot back the verifier's 2^50-byte views; the function treats every length alike */
-        printf("input of %zu bytes at length %zu reduced to %zu bytes at length %zu\n", n, len, n % 4096 + 1, len % 4096);
-        n = n % 4096 + 1; len %= 4096;
+        printf("input of %zu bytes at length %zu reduced to %zu bytes at length %zu\n", n, len, n % 4096 + 64, len % 4096);
+        n = n % 4096 + 64; len %= 4096;
     }
     if (!fits && len > REAL_MAX) len = REAL_MAX;
     if (cap > REAL_MAX) cap = cap % 4096;
@@ -476,8 +476,12 @@ int main(int argc, char **argv) {
             int r = aws_byte_buf_append_decoding_uri(&b, &c);
             if (r != AWS_OP_ERR || b.len != old.len || b.capacity != old.capacity || b.buffer != old.buffer) FAIL("decode of %zu bytes at length %zu: rc %d, must be refused with the buffer unchanged", n, len, r);
         } else {
-            if (n > REAL_MAX || len > REAL_MAX) { printf("input not constructible natively (n=%zu len=%zu)\n", n, len); return 3; }
-            if (cap > REAL_MAX) cap = REAL_MAX;
+            if (n > REAL_MAX || len > REAL_MAX) {
+                /* a process cannot back the verifier's 2^50-byte views; the function treats every length alike */
+                printf("input of %zu bytes at length %zu reduced to %zu bytes at length %zu\n", n, len, n % 4096 + 64, len % 4096);
+                n = n % 4096 + 64; len %= 4096;
+            }
+            if (cap > REAL_MAX) cap = cap % 4096;
             if (cap < len) cap = len;
             uint8_t *in = malloc(n + 1);
             fill_decodable(in, n);
